@@ -79,7 +79,7 @@ theorem C04_returns_best (c : Cfg) (hnc : 0 < c.nc) (ss : Nat) (v0 d : V) (chs :
         | none => match Algo.best (run c ss (some v0) d chs evs).1.core with
           | some (x, v) => .ok x v (run c ss (some v0) d chs evs).1.accepted (run c ss (some v0) d chs evs).1.rejected
           | none => .noIndividuals :=
-  ((run_inv2 c hnc ss v0 d chs evs).retOut o dr hret).2
+  ((run_inv2 c hnc ss v0 d chs evs).retOut o dr hret).2.1
 
 /-- non-vacuity: a terminate request with two evaluations in flight; one honours it (rejection), the other ignores it
     and delivers a result while draining - that result is the best-seen that is returned -/
